@@ -7,7 +7,7 @@ import lib_C10 as L
 
 ID = "C10"
 PROOF_FILES = ["C10", "C10Var"]
-THEOREM = ("Ufo2ft.C10.C10_kern / C10_kern_reproduced / C10_kern_glyph / C10_anchor / C10_collapse / C10_compat / "
+THEOREM = ("Ufo2ft.C10.C10_kern / C10_kern_reproduced / C10_kern_glyph / C10_own_groups / C10_kern_glyph_own / C10_anchor / C10_collapse / C10_compat / "
            "deltaModel_law / oneAxis_law / nAxis_law / variationModel_law / C10_varmodel / support_self / support_later_zero / "
            "nAxis_law_rounded / nAxis_law_rounded_int / variationModel_law_rounded / C10_outline_rounded / C10_outline_of_law")
 N = {"quick": 120, "thorough": 4000}
@@ -16,7 +16,11 @@ RULE = ("compatible families in memory: 2-6 full masters on 1-2 axes (default + 
         "necessarily first, ufoLib2/defcon, cubic or straight outlines, a composite with offsets varying and a composite whose component "
         "2x2 matrix is identical / slightly different / clearly different between masters; per-master kerning drawn as random subsets of "
         "a key pool on all four precedence levels (pairs present in only some masters, exception chains, keys naming missing "
-        "glyphs/groups, half-integer values, marks in kerning when public.openTypeCategories is set), quantisation 1/2/5/10; anchors "
+        "glyphs/groups, half-integer values, marks in kerning when public.openTypeCategories is set), quantisation 1/2/5/10; in 40 % of the "
+        "families the sources do NOT carry the same groups: one or two kerning groups (glyphs outside the common groups of that side) "
+        "are defined only by some full masters - as a rule not by the default master - together with class pairs, class/glyph pairs "
+        "and exceptions that use them (a pair, with its groups, present in one master only; a master that lacks a group names it in "
+        "no key; tags own-groups / master-has-group-default-lacks / master-lacks-group-of-family); anchors "
         "(mark, mark-to-mark, composite) with x.5/x.25 coordinates; feature files: none / equal modulo comments and white space / an "
         "extra unused class in some master / only the default has text. Function level: KernFeatureWriter.getKerningGroups / "
         "getVariableKerningPairs, BaseFeatureWriter._getAnchor, util.collapse_varscalar, get_userspace_location, "
@@ -45,7 +49,9 @@ ASSUMED = ["varLib.build_many / merger / instancer and feaLib's variation-store 
            "master is PROVED within 1/2 (C10_outline_rounded: a rounding consumer within 1 unit); that gvar/HVAR/CFF2/GPOS stores and "
            "the instancer evaluate exactly this model (supports as regions, these deltas, IUP within its tolerance) is measured",
            "feaLib compiles pair rules as written (glyph pairs before class pairs, first definition wins) - C05's assumption",
-           "all sources of a family carry the same kerning groups and the same anchor inventory (what 'compatible masters' means for layout)"]
+           "all sources of a family carry the same anchor inventory; kerning groups may differ between the sources only by groups that "
+           "some masters do not define at all (and then do not name in any key) - a group defined DIFFERENTLY in two sources, or a key "
+           "naming a group its own master lacks, is outside the contract (function-level stream 'groups-differ' only)"]
 EXHAUSTIVE = False
 
 _ROOT = os.path.dirname(os.path.dirname(os.path.dirname(os.path.abspath(__file__))))
@@ -87,7 +93,8 @@ def gen(rng, n, mode):
         which = rng.choice(sorted(on)) if on and rng.random() < 0.3 else None
         fam = L.gen_family(rng, mode, allow_diamond=which == "variable-kern-diamond", exact=r < 0.85, multi=(r < 0.15),
                            allow_nogpos=which == "merge-default-without-gpos",
-                           allow_frac=which == "variable-features-fractional-location")
+                           allow_frac=which == "variable-features-fractional-location",
+                           own_groups=which != "variable-kern-diamond" and rng.random() < 0.4)
         yield {"kind": "family", "fam": fam, "fmt": rng.choice(["ttf", "cff2"]), "q": rng.choice([1, 1, 1, 2, 5, 10])}
 
 
@@ -122,7 +129,10 @@ LEVEL_TEXT = ("Proved for all inputs (Lean, unbounded numbers of sources / keys 
               "exception fallback, not 0 and not an interpolation -, emits nothing else and nothing from sparse sources; hence under ANY "
               "variation model with the master-reproduction law the emitted scalar interpolates to the master's own UFO value at the master, "
               "and for glyph pairs the first-match reading equals the master's UFO kerning except in one exactly characterised shape "
-              "(glyph-class key missing in a master that has the class-glyph key; counterexample proved); variable anchors carry otRound of "
+              "(glyph-class key missing in a master that has the class-glyph key; counterexample proved); this also holds when the master's UFO "
+              "kerning is read with the master's OWN groups and the master lacks groups that only other masters' pairs use "
+              "(C10_own_groups, C10_kern_glyph_own; that the classes of ALL sources are needed is proved by a counterexample, "
+              "C10_own_groups_witness: with the default's classes alone a Bold-only class pair reads 0 at Bold); variable anchors carry otRound of "
               "each source layer's anchor at that layer's location; collapse_varscalar returns a number only if all entries equal it; "
               "_featuresCompatible's decision; the master-reproduction law itself is proved for fontTools' delta construction from its two "
               "support facts, and those facts are proved for ANY number of axes and masters (on the axes, at corners, intermediate, in "
@@ -140,7 +150,11 @@ LEVEL_TEXT = ("Proved for all inputs (Lean, unbounded numbers of sources / keys 
 LEVEL_NOTE = ("Trusted: Lean kernel + standard axioms; the hand-written model is tied to the code by direct calls of the anchored functions and "
               "by instantiating compiled variable fonts; varLib/feaLib/instancer are assumed to satisfy the VarModel law (measured, not proved; "
               "outlines within 1 unit); with more than one intermediate master per axis integer deltas make kerning/anchors exact only within 1 "
-              "unit (separate tolerant stream); all sources of a family carry the same groups and anchor inventory. Three findings of the "
+              "unit (separate tolerant stream); all sources of a family carry the same anchor inventory; families whose masters carry different "
+              "groups are generated (groups defined by some masters only, the default usually lacking them) and each master is compared "
+              "with its UFO kerning under ITS OWN groups, the model's classes being the modelled getKerningGroups over all sources' groups "
+              "(not the implementation's); groups redefined with different members in different masters are compared at function level "
+              "only. Three findings of the "
               "unchanged code are recorded (harness/findings_C10.json) and generated only once registered: the variable-kerning diamond, "
               "the merge path without GPOS in the default master, masters at non-integer user-space locations under variable features. "
               "kernFeatureWriter2 and infoCompiler are not modelled.")
